@@ -241,7 +241,8 @@ A_RxnAddMetabolites(C, r, d, combine, sign) ==
 
 \* reaction *= k
 A_RxnIMul(C, r, k) ==
-  IF r \notin C.rxns \/ k = 0 THEN FailLoose(C, "skip")
+  \* (k = 0: nothing is left of the reaction -- no zero entries)
+  IF r \notin C.rxns THEN FailLoose(C, "skip")
   ELSE Ok([C EXCEPT !.S[r] = [m \in MetU |-> C.S[r][m] * k],
                     !.lb[r] = IF k < 0 THEN Neg(C.ub[r]) ELSE C.lb[r],
                     !.ub[r] = IF k < 0 THEN Neg(C.lb[r]) ELSE C.ub[r]])
@@ -378,8 +379,10 @@ A_SetMedium(C, d) ==
       nlb == [r \in RxU |-> IF r \in listed /\ ReactantWritten(C, r) THEN -d[r]
                             ELSE IF r \in ex \ listed /\ ReactantWritten(C, r) THEN Max2(0, C.lb[r])
                             ELSE C.lb[r]]
-      nub == [r \in RxU |-> IF r \in listed /\ ~ReactantWritten(C, r) THEN d[r]
-                            ELSE IF r \in ex \ listed /\ ~ReactantWritten(C, r) THEN Min2(0, C.ub[r])
+      \* (a reaction without metabolites -- an SBO-annotated exchange that was emptied -- has no import direction:
+      \* set_active_bound does nothing for it)
+      nub == [r \in RxU |-> IF r \in listed /\ ~ReactantWritten(C, r) /\ MetsOfRxn(C, r) # {} THEN d[r]
+                            ELSE IF r \in ex \ listed /\ ~ReactantWritten(C, r) /\ MetsOfRxn(C, r) # {} THEN Min2(0, C.ub[r])
                             ELSE C.ub[r]]
   IN
   IF ~HasExt(C) \/ ~(listed \subseteq ex) THEN FailLoose(C, "skip")
